@@ -263,6 +263,10 @@ def walk(sc, rng, length, res):
                 if (o[1] != ob[1]) or (o[2] != ob[2]) or (o[3] != ob[3]) \
                         or C.result_ints(e, o[4]) != C.result_ints(base, ob[4]) or o[5] != ob[5]:
                     cross.append(f"reward/done/truncated/info/draws differ in mode {m}")
+                    if o[1] != ob[1] and C.result_ints(e, o[4]) == C.result_ints(base, ob[4]):
+                        # same value gained, different reward: the cost charged in this mode is not
+                        # the cost the scenario defines (the flat modes are compared with the model)
+                        cross.append(f"C05: reward in mode {m} is not value minus the scenario's cost")
             obs = o[0]
             twin = outs[(m[0], True, False)][0]
             if m[2]:
@@ -275,12 +279,14 @@ def walk(sc, rng, length, res):
     outs = {m: e.reset() for m, e in envs.items()}
     ops.append("0")
     snapshot("reset", outs)
+    paid_host, paid_disc = set(), set()      # C05 "every value is paid once" along the episode
     for _ in range(length):
         r = rng.random()
         if r < 0.06:
             outs = {m: e.reset() for m, e in envs.items()}
             ops.append("0")
             snapshot("reset", outs)
+            paid_host, paid_disc = set(), set()
             continue
         # choose an action expressible in both spaces, biased towards discovered targets
         for _try in range(20):
@@ -321,6 +327,18 @@ def walk(sc, rng, length, res):
                     and g[2] == o[1] and g[3] == o[2]
                     and C.result_ints(e, g[4]) == C.result_ints(e, o[4])):
                 cross.append(f"step disagrees with generative_step in mode {m}")
+        # episode-level monitor of C05 on the implementation: a host's value / discovery value is
+        # gained at most once between two resets
+        info_ref = outs[(True, True, False)][4]
+        if isinstance(a, (Exploit, PrivilegeEscalation)) and info_ref["success"] and float(info_ref["value"]) != 0.0:
+            if a.target in paid_host:
+                cross.append(f"C05: the value of host {a.target} was gained a second time in one episode")
+            paid_host.add(a.target)
+        for addr, new in (info_ref.get("newly_discovered") or {}).items():
+            if new:
+                if addr in paid_disc:
+                    cross.append(f"C05: host {addr} was newly discovered (and paid) twice in one episode")
+                paid_disc.add(addr)
         older.append(ref.current_state)
         if len(older) > 8:
             older.pop(0)
@@ -390,7 +408,11 @@ def run_scenario(args):
         res["untranslatable"] += 1
         res["error"] = f"untranslatable: {e}"
     except Exception as e:
-        res["error"] = "".join(traceback.format_exception(type(e), e, e.__traceback__))[-3000:]
+        if C.raised_by_implementation(e):
+            res["impl_exception"] = C.impl_exception_finding(
+                e, "dynamics exploration", dict(scenario_index=idx, scenario_kind=kind))
+        else:
+            res["error"] = "".join(traceback.format_exception(type(e), e, e.__traceback__))[-3000:]
     res["outcomes"] = dict(res["outcomes"])
     return res
 
@@ -453,7 +475,7 @@ def diff_walk(impl, model, ops_line):
     return [("walk_length", "C13")]
 
 
-CROSS_OWNER = [("1D observation", "C09"), ("step disagrees", "C13"), ("older state", "C13"),
+CROSS_OWNER = [("C05:", "C05"), ("1D observation", "C09"), ("step disagrees", "C13"), ("older state", "C13"),
                ("", "C12")]
 
 
@@ -497,6 +519,7 @@ def attribute(res_list):
     if not any(f["kind"] == "failing-input" and f["replay"].get("kind") == "dyn-transition"
                for f in findings):
         findings += drift
+    findings += [r["impl_exception"] for r in res_list if r.get("impl_exception")]
     return findings
 
 
